@@ -87,6 +87,11 @@ async fn handle_connection(mut socket: WebSocket, state: ApiState) {
 
     // Stream live data if requested
     if request.live {
+        // The live tail must obey the statement's WHERE clause exactly like the
+        // historical part (and like `StreamingQueryExecutor`): only rows at or
+        // after the merge point that satisfy the query's predicates are sent.
+        let filter = crate::query::QueryFilter::from_sql(&request.query);
+        let merge_timestamp = chrono::Utc::now().timestamp_nanos_opt().unwrap_or(0);
         let mut rx = state.ingester.subscribe();
 
         loop {
@@ -94,6 +99,11 @@ async fn handle_connection(mut socket: WebSocket, state: ApiState) {
                 result = rx.recv() => {
                     match result {
                         Ok(batch) => {
+                            let batch = match filter.apply(&batch, merge_timestamp) {
+                                Ok(Some(filtered)) => filtered,
+                                Ok(None) => continue,
+                                Err(_) => break,
+                            };
                             let json = batch_to_json(&batch);
                             let msg = StreamMessage {
                                 msg_type: "data".to_string(),
